@@ -143,15 +143,19 @@ def run_stream(harness, model, cases, wd):
         if not part:
             continue
         path = os.path.join(wd, f"impl.{i}.cases")
+        outp = os.path.join(wd, f"impl.{i}.out")
         C.write_lines(path, part)
-        procs.append(subprocess.Popen([harness, "codec", path], stdout=subprocess.PIPE, stderr=subprocess.PIPE,
-                                      text=True, env=dict(os.environ, TZ="UTC")))
+        argv = [harness, "codec", path]
+        procs.append((subprocess.Popen(argv, stdout=open(outp, "w"), stderr=subprocess.PIPE,
+                                       text=True, env=dict(os.environ, TZ="UTC")), argv, path, outp))
     impl = []
-    for p in procs:
-        o, e = p.communicate(timeout=3000)
-        if p.returncode != 0:
-            raise C.Undecided("harness codec (C03) failed: " + e[-1000:])
-        impl += [l for l in o.splitlines() if l != "env"]
+    for p, argv, path, outp in procs:
+        _, e = p.communicate(timeout=3000)
+        # a case cut short by the watchdog is a result (`hang`), not a tooling failure
+        rc, e = C._retry_hangs(argv, path, outp, p.returncode, e, dict(os.environ, TZ="UTC"), 3000)
+        if rc != 0:
+            raise C.Undecided("harness codec (C03) failed: " + (e or "")[-1000:])
+        impl += [l for l in open(outp).read().splitlines() if l != "env"]
     if len(impl) != n:
         raise C.Undecided(f"C03: {len(impl)} results for {n} cases")
     return impl
